@@ -110,6 +110,26 @@ class Ref:
         return out
 
 
+def rot_angle(R):
+    s = 0.5 * np.linalg.norm([R[2, 1] - R[1, 2], R[0, 2] - R[2, 0], R[1, 0] - R[0, 1]])
+    return float(np.arctan2(s, 0.5 * (np.trace(R) - 1.0)))
+
+
+EXP_CUTOFF = 1e-6
+
+
+def tiny_rotation_allowance(B, T):
+    """The library's rotation exponential returns the identity for angles below 1e-6 (Modern Robotics' NearZero), so a
+    pose whose matrix carries a rotation in (0, 1e-6) has a six-vector that describes it only to that angle (C03's
+    documented band).  The published relative transform is computed through six-vectors; this is the error that can
+    enter through the bottom pose, the top pose and the result: the sum of their angles that are below the cut-off,
+    times the lever |p_top - p_bottom| (at least 1).  Zero for every pose outside that band."""
+    X = rel(B, T)
+    a = [rot_angle(M[:3, :3]) for M in (B, T, X)]
+    s = sum(x for x in a if 0.0 < x <= EXP_CUTOFF * 1.01)
+    return s * max(1.0, float(np.linalg.norm(X[:3, 3])))
+
+
 def coherence(ref, B, T, bj_pub, tj_pub, L_pub, X_pub):
     """Residuals of the four coherence clauses between the published tables and the plate poses (absolute)."""
     bj, tj = ref.joints(B, T)
